@@ -1,5 +1,6 @@
 import SqlcModel.Driver.Analysis
 import SqlcModel.Spec.SqlLex
+import SqlcModel.Spec.Rewrite
 namespace Sqlc.Drv
 open Lean Sqlc Sqlc.Q
 
@@ -68,6 +69,16 @@ def c03 (kind : String) (inp impl : Json) : Verdict :=
     let run := runAnalysis inp
     let specv := if jstr impl "err" != "" then "na" else specC03 inp impl
     let specv := if specv == "ok" && jstr inp "engine" == "mysql" then mysqlTextOrder inp else specv
+    -- named parameters: every occurrence of one name is written as one number, and two names as two numbers —
+    -- otherwise an occurrence is fed by another parameter's argument (token-level, Spec.Rewrite)
+    let specv := if specv == "ok" && jstr inp "engine" != "mysql" && !(jarr inp "names").isEmpty then
+        let src := Spec.Rw.stripSemis (Spec.Lex.lex false (jhex inp "rawSQL"))
+        let emb := Spec.Rw.stripSemis (Spec.Lex.lex false (jhex (jobj impl "go") "sql"))
+        match Spec.Rw.matchToks false false (src.length + emb.length + 8) src emb {} with
+        | some acc => if Spec.Rw.namesConsistent acc.names then "ok"
+            else "fail:named parameters and the placeholder numbers written for them are not one-to-one: an occurrence is fed by another parameter's argument"
+        | none => "ok"
+      else specv
     { model := run.model, compare := !walkPanic && !reparseRejected impl, frag := if walkPanic then "out:walk-panic" else if reparseRejected impl then "out:reparse-rejected" else "in",
       specImpl := specv, trig := run.trig, implProj := some (implProjection impl) }
   | _ => { compare := false, frag := "e2e" }
